@@ -106,6 +106,10 @@ class PGen:
             return [("t", rnd.choice(NUMS))]
         if x < 0.7 or not inside:
             return [self.leaf()]
+        if x < 0.85 and depth < 4:
+            # a value computed from a parameter one level down ({{#if:{{{2|}}}|7|8}})
+            self.kinds.add("if")
+            return [("if", [self.param(tmpl, depth + 1)], [("t", rnd.choice(NUMS))], self.branch_ws(), [self.leaf()])]
         return [self.param(tmpl, depth)]
 
     def param(self, tmpl, depth):
@@ -131,6 +135,13 @@ class PGen:
                 args.append(("n", name, (rnd.choice(WS), rnd.choice(WS), rnd.choice(WS), rnd.choice(WS)), val))
             else:
                 args.append(("a", (rnd.choice(("", "", " ", "  ")), rnd.choice(("", "", " "))), val))
+        npos = sum(1 for a in args if a[0] == "a")
+        if npos < 3 and rnd.random() < 0.25:
+            # a positional parameter bound by its number, beyond the positional arguments given (never twice)
+            self.kinds.add("named")
+            name = str(rnd.randint(npos + 1, 3))
+            args.insert(rnd.randint(0, len(args)), ("n", name, (rnd.choice(WS), rnd.choice(WS), rnd.choice(WS), rnd.choice(WS)),
+                                                    self.parts(tmpl, depth + 1, inside, 1, 1)))
         self.kinds.add("call")
         return ("c", "t%d" % target, args)
 
